@@ -57,6 +57,17 @@ theorem stringers_contained (k : Bytes) (os : List Entry.Outcome) : FieldOK (str
     | nilRecv => exact ⟨by simpa [stringersBody, WFa, WFj, esc_ok] using ih.1, by simpa [stringersBody, NoCtlA, NoCtlJ] using ih.2⟩
     | panic m => exact ⟨by simp [stringersBody, WFa], by simp [stringersBody, NoCtlA]⟩
 
+/-- zap.Errors: every element — plain, verbose, a group with causes, nil pointer, panicking — yields a closed,
+    well-formed object; a failing element reports itself inside its own object and the array goes on -/
+theorem errors_field_contained (k : Bytes) (es : List ErrV) : FieldOK (errorsField k es) := by
+  unfold errorsField
+  show GoodA (es.map fun e => AC.obj (addTo (.error (litStr "error") e)))
+  induction es with
+  | nil => exact ⟨by simp [WFa], by simp [NoCtlA]⟩
+  | cons e r ih =>
+    have he := addTo_good (.error (litStr "error") e) trivial
+    exact ⟨by simpa [WFa] using ⟨he.1, ih.1⟩, by simpa [NoCtlA] using ⟨he.2, ih.2⟩⟩
+
 /-! ### sinks and cores -/
 
 /-- every sink under every accepting core receives the entry, whatever any other sink or core returned -/
